@@ -39,7 +39,8 @@ Fixpoint lookup (e : env) (k : bytes) : option value :=
 
 Inductive comp :=
 | CTempl (name : bytes)      (* generated template of this file, called with the caller's parameter values *)
-| CWrap                      (* hand-written: "[" children "]" - takes the slot (read, clear) like the documented idiom *)
+| CWrap (o c : bytes)        (* hand-written: o children c - takes the slot (read, clear) like the documented idiom;
+                                wrap() writes through, capt() renders the children into a plain bytes.Buffer first *)
 | CIgnore                    (* hand-written: "(i)", never looks at the slot *)
 | CRaw (s : bytes)           (* templ.Raw(s) *)
 | COnce (k : bytes)          (* handle.Once(): renders its children once per handle k *)
@@ -48,7 +49,9 @@ Inductive comp :=
 | CUnknown.
 Fixpoint upto_paren (s : bytes) : bytes := match s with [] => [] | b :: r => if Byte.eqb b x28 then [] else b :: upto_paren r end.
 Definition comp_of (x : bytes) : comp :=
-  if beq x (bs "wrap()") then CWrap else if beq x (bs "ignore()") then CIgnore
+  if beq x (bs "wrap()") then CWrap (bs "[") (bs "]") else if beq x (bs "capt()") then CWrap (bs "{") (bs "}")
+  else if beq x (bs "hflush()") then CWrap (bs "<f>") (bs "</f>")
+  else if beq x (bs "ignore()") then CIgnore
   else if beq x (bs "c0") then CNop
   else if beq x (bs "templ.Flush()") then CFlush
   else if has_prefix (bs "once") x then COnce (upto_paren x)
@@ -153,7 +156,7 @@ Definition render_comp_with (R : rfun) (e : env) (c : comp) (x : st) : st :=
   | CUnknown => fail0 x
   | CIgnore => emit (bs "(i)") x
   | CRaw s => emit s x
-  | CWrap => let mine := slot x in emit (bs "]") (render_block_with R mine (set_slot None (emit (bs "[") x)))
+  | CWrap o c => let mine := slot x in emit c (render_block_with R mine (set_slot None (emit o x)))
   | CFlush => render_children_restoring R x
   | COnce k => if existsb (beq k) (onces x) then x else render_children_restoring R (mark_once k x)
   | CTempl name =>
